@@ -7,6 +7,7 @@
 import GojaModel.Base.Proto
 import GojaModel.C09.Model
 import GojaModel.C09.Mech
+import GojaModel.C09.Link
 
 namespace GojaModel.C09.Driver
 open GojaModel.C09
@@ -223,9 +224,28 @@ def showResult : Result → String
 
 def fuelBudget : Nat := 20000
 
+/-- The try-stack layout (`Link.encode`) of a suspended generator's continuation, outermost frame first, one item per
+try frame: `c`/`-` catch armed, `f`/`-` finally armed, `:` number of iterators open outside it. -/
+def layoutOf (g : GState) : String :=
+  match g with
+  | .susp c _ =>
+    let fs := Link.encode (fun _ => 0) c.k
+    "[" ++ ",".intercalate (fs.map (fun tf =>
+      (if tf.catchPos ≥ 0 then "c" else "-") ++ (if tf.finallyPos ≥ 0 then "f" else "-") ++ ":" ++ toString tf.iterLen)) ++ "]" ++
+      toString (Link.countForOf c.k)
+  | _ => ""
+
+def runLayouts (fuel : Nat) : GState → List Cmd → List (List Event × Result × String)
+  | _, [] => []
+  | g, c :: cs =>
+    let r := genCall fuel g c
+    (r.1, r.2.1, layoutOf r.2.2) :: runLayouts fuel r.2.2 cs
+
+/-- `<trace> ~ <layout after command 0>;<layout after command 1>;…` (layout empty unless the command left the generator suspended). -/
 def traceOf (body : List Stmt) (cmds : List Cmd) : String :=
-  let tr := genRunFrom fuelBudget (GState.init body) cmds
-  " ".intercalate (tr.map (fun (ev, r) => ",".intercalate ev ++ ";" ++ showResult r))
+  let tr := runLayouts fuelBudget (GState.init body) cmds
+  " ".intercalate (tr.map (fun (ev, r, _) => ",".intercalate ev ++ ";" ++ showResult r)) ++ " ~ " ++
+    ";".intercalate (tr.map (fun (_, _, l) => l))
 
 def splitOnTok (ts : List String) (sep : String) : List (List String) :=
   let r := ts.foldl (fun (acc : List (List String) × List String) t =>
